@@ -415,6 +415,37 @@ func srvOversizeStreams(r *rng, f func(s []byte)) {
 	}
 }
 
+// srvBigReplyStreams: many small requests with maximal replies, so that the requests completed by
+// one read are answered with more than 1024, 2048, 4096 bytes
+func srvBigReplyStreams(r *rng, f func(s []byte)) {
+	build := func(n int, fcs []int) []byte {
+		var s []byte
+		for i := 0; i < n; i++ {
+			fc := fcs[i%len(fcs)]
+			tid := uint16(0x7000+i*16) | uint16(r.intn(4))
+			var req packet.Request
+			switch fc {
+			case 3:
+				req, _ = packet.NewReadHoldingRegistersRequestTCP(uint8(1+i), uint16(100*i), 125)
+			case 4:
+				req, _ = packet.NewReadInputRegistersRequestTCP(uint8(1+i), uint16(100*i), 125)
+			case 1:
+				req, _ = packet.NewReadCoilsRequestTCP(uint8(1+i), uint16(100*i), 2000) // refused by the parser (limit 125): 9-byte replies
+			default:
+				req, _ = packet.NewReadWriteMultipleRegistersRequestTCP(uint8(1+i), uint16(100*i), 124, 7, []byte{1, 2})
+			}
+			s = append(s, srvSetTid(req.Bytes(), tid)...)
+		}
+		return s
+	}
+	f(build(4, []int{3}))
+	f(build(9, []int{3}))
+	f(build(16, []int{4}))
+	f(build(5, []int{3, 23, 4}))
+	f(build(20, []int{3, 1, 23}))
+	f(build(16, []int{1}))
+}
+
 // srvGarbage: bytes that are not the start of a Modbus TCP ADU
 func srvGarbage(r *rng) []byte {
 	switch r.intn(5) {
@@ -1032,11 +1063,12 @@ func srvWhole(mode int, all []byte) V {
 	if mode == 2 {
 		mode = 0 // the same handler without the delay
 	}
-	return srvDirectStep(&server.ModbusTCPAssembler{Handler: srvHandler{mode}}, all, nil)
+	return srvDirectStep(&server.ModbusTCPAssembler{Handler: srvHandler{mode}}, all, nil, nil)
 }
 
 // srvDirectStep calls the real ReceiveRead; cum (may be nil) accumulates the returned bytes
-func srvDirectStep(a *server.ModbusTCPAssembler, chunk []byte, cum *[]byte) (res V) {
+// raw (may be nil) receives the returned slice itself, to be looked at again later
+func srvDirectStep(a *server.ModbusTCPAssembler, chunk []byte, cum *[]byte, raw *[]byte) (res V) {
 	var acc []byte
 	if cum != nil {
 		acc = *cum
@@ -1047,6 +1079,9 @@ func srvDirectStep(a *server.ModbusTCPAssembler, chunk []byte, cum *[]byte) (res
 		}
 	}()
 	resp, closeConn := a.ReceiveRead(context.Background(), chunk, len(chunk))
+	if raw != nil {
+		*raw = resp
+	}
 	acc = append(append([]byte(nil), acc...), resp...)
 	if cum != nil {
 		*cum = acc
